@@ -67,7 +67,8 @@ impl Subscriber for Sub {
 pub struct SendSys {
     pub spec: SessSpec,
     pub catalog: Arc<Vec<ObjSpec>>,
-    pub sender: Sender,
+    /// never dropped after a subject panic (poisoned locks: dropping it could panic again outside any guard)
+    pub sender: std::mem::ManuallyDrop<Sender>,
     pub now_ms: u64,
     /// TOI given to catalogue object k (None = never added / refused)
     pub toi_of: Vec<Option<u128>>,
@@ -75,6 +76,14 @@ pub struct SendSys {
     pub log: Vec<Item>,
     sub: Arc<Sub>,
     pub panicked: Option<String>,
+}
+
+impl Drop for SendSys {
+    fn drop(&mut self) {
+        if self.panicked.is_none() {
+            unsafe { std::mem::ManuallyDrop::drop(&mut self.sender) };
+        }
+    }
 }
 
 pub fn summarize(p: &[u8], t_ms: u64) -> Option<PktSum> {
@@ -95,7 +104,7 @@ impl SendSys {
         let sub = Arc::new(Sub(Mutex::new(Vec::new())));
         sender.subscribe(sub.clone());
         let n = catalog.len();
-        SendSys { spec: spec.clone(), catalog, sender, now_ms: 0, toi_of: vec![None; n], removed: vec![false; n], log: Vec::new(), sub, panicked: None }
+        SendSys { spec: spec.clone(), catalog, sender: std::mem::ManuallyDrop::new(sender), now_ms: 0, toi_of: vec![None; n], removed: vec![false; n], log: Vec::new(), sub, panicked: None }
     }
     fn flush_events(&mut self) {
         let evs: Vec<(bool, u128)> = std::mem::take(&mut *self.sub.0.lock().unwrap());
